@@ -265,7 +265,50 @@ def check_optimised():
                         f'python -O: dict-backed n={n} {how}({k}): {what} ({len(res["problems"])} problems in all)')
 
 
+LAUNCHER_ENV = {'RANK': '1', 'WORLD_SIZE': '3', 'LOCAL_RANK': '1', 'SLURM_PROCID': '1', 'SLURM_NTASKS': '3',
+                'SLURM_LOCALID': '1', 'OMPI_COMM_WORLD_RANK': '1', 'OMPI_COMM_WORLD_SIZE': '3',
+                'PMI_RANK': '1', 'PMI_SIZE': '3'}
+
+
+def check_frozen(n, k, seed_):
+    """The dataset being split is the frozen copy of a reshuffling dataset whose original goes on being iterated while
+    the (lazy) shards are read one after the other: the shards still partition what the frozen copy was."""
+    import lazy_dataset
+    live = lazy_dataset.new({f'k{i:03d}': ('s', i) for i in range(n)}).shuffle(True, rng=np.random.RandomState(seed_))
+    list(live)
+    frozen = live.copy(freeze=True)
+    shards = frozen.split(k)
+    whole = None
+    parts = []
+    for j, sh in enumerate(shards):
+        parts.append((list(sh), list(sh.keys())))
+        list(live)  # one more epoch of the original between two shards
+        if j == 0:
+            whole = (list(frozen), list(frozen.keys()))
+    vals = [v for p, _ in parts for v in p]
+    keys = [k_ for _, ks in parts for k_ in ks]
+    if (vals, keys) != whole or sorted(v[1] for v in vals) != list(range(n)):
+        raise Violation('frozen-split-not-a-partition',
+                        f'n={n} k={k} seed={seed_}: the frozen copy of a reshuffling dataset is {whole}; its shards, '
+                        f'read one after the other while the original is iterated in between, give {vals} / {keys}')
+    return [len(p) for p, _ in parts]
+
+
 def run_case(case):
+    if case.get('frozen'):
+        return check_frozen(case['n'], case['k'], case['seed'])
+    if case.get('env'):
+        import os
+        saved = {k_: os.environ.get(k_) for k_ in LAUNCHER_ENV}
+        os.environ.update(LAUNCHER_ENV)
+        try:
+            return run_case({k_: v for k_, v in case.items() if k_ != 'env'})
+        finally:
+            for k_, v in saved.items():
+                if v is None:
+                    os.environ.pop(k_, None)
+                else:
+                    os.environ[k_] = v
     if case.get('optimised'):
         return check_optimised()
     if case.get('big'):
@@ -377,6 +420,26 @@ def run_shard(tier, idx, nshards, rec, known):
                     out.violation = (case, v.sig, v.detail)
                     return [out]
             rec.case(case, True, ['valid', 'big-product'], size=n)
+    if idx == 1 % nshards:
+        # the process was started by a job launcher (rank / world-size variables of torchrun, Slurm, Open MPI, PMI are
+        # set): explicit arguments mean what they say
+        extra = [{'kind': kind, 'n': n, 'k': k, 'full': True, 'env': True}
+                 for n in range(0, 9) for kind in ('list', 'dict') for k in range(-1, n + 3)]
+        # the frozen copy of a reshuffling dataset is split; the original is iterated on between the shards
+        extra += [{'frozen': True, 'n': n, 'k': k, 'seed': sd} for n in (2, 3, 5, 8) for k in range(1, n + 1)
+                  for sd in (0, 1)]
+        for case in extra:
+            try:
+                sizes = run_case(case)
+            except Violation as v:
+                if known.match(v.sig):
+                    rec.known_hits[v.sig] += 1
+                    continue
+                out.violation = (case, v.sig, v.detail)
+                return [out]
+            k, n = case['k'], case['n']
+            rec.case(dict(case, sizes=sizes), k >= 2 and k <= n and n % k != 0,
+                     ['launcher-env' if case.get('env') else 'frozen-reshuffle-split'], size=n)
     if idx == 3 % nshards:
         case = {'optimised': True}
         try:
